@@ -28,7 +28,15 @@ fn space(tier: Tier) -> &'static Space {
 /// hand-written texts covering productions the families do not print
 fn extra_texts() -> Vec<(String, String)> {
     let mut v: Vec<(String, String)> = crate::props::c15::PROGRAMS.iter().map(|(n, s)| (format!("c15:{n}"), s.to_string())).collect();
-    let more: [(&str, &str); 30] = [
+    let more: [(&str, &str); 37] = [
+        // tokens that span several lines with blanks in front of an inner line break
+        ("multiline_string_with_inner_trailing_blanks", "fn dsp() {\n  let s = \"left \n channel\t\nend\"\n  0.0\n}\n"),
+        ("multiline_block_comment_with_inner_trailing_blanks", "fn dsp(x) {\n  /* half  \n     scale\t\n  */\n  x * 0.5\n}\n"),
+        ("double_minus", "fn dsp(x) {\n  let y = x\n  1.0 - -y + (- -y)\n}\n"),
+        ("if_then_on_next_line", "fn dsp(x) {\n  let a = if (x > 0.5)\n    (1.0) else (2.0)\n  if (x > 0.5)\n    [1.0, a][0] else (2.0, 3.0).0\n}\n"),
+        ("trailing_commas_with_comments", "fn f(a, b,) {\n  a + b\n}\nfn dsp(x) {\n  f(x, /* one */ 1.0, /* two */ )\n}\n"),
+        ("macro_arguments_with_comments", "#stage(macro)\nfn m(a, b) {\n  `{ $a + $b }\n}\n#stage(main)\nfn dsp(x) {\n  m!(`x, /* c */ `1.0)\n}\n"),
+        ("lambda_union_return_type", "fn dsp(x) {\n  let f = |y: float| -> (float | string) { y }\n  x\n}\n"),
         ("match_and_types", "type alias Pt = (float, float)\ntype Dir = Up | Down\ntype rec List = Nil | Cons(float, List)\nfn sum(l: List) -> float {\n  match l {\n    Nil => 0.0,\n    Cons(h, t) => h + sum(t)\n  }\n}\nfn dsp(x) {\n  let d = Up\n  let v = match d { Up => 1.0, Down => 2.0 }\n  let w = match x { 0 => 1.0, 1 => { let q = 2.0\n q }, _ => 3.0 }\n  let m = match (x, 1.0) { (a, b) => a + b }\n  v + w + m + sum(Cons(1.0, Nil))\n}\n"),
         ("match_arms_on_lines", "fn dsp(x) {\n  match x {\n    0 => 1.0\n    1 => 2.0\n    _ => 3.0\n  }\n}\n"),
         ("if_without_parentheses", "fn dsp(x) {\n  if x > 0.0 {\n    1.0\n  } else {\n    2.0\n  }\n}\n"),
